@@ -49,13 +49,13 @@ func typed(v any) any {
 		for i, e := range t {
 			a[i] = typed(e)
 		}
-		return abs{"t": "arr", "g": "[]any", "v": a}
+		return abs{"t": "arr", "g": "[]any", "v": a, "nil": t == nil}
 	case gen.Array:
 		a := make([]any, len(t))
 		for i, e := range t {
 			a[i] = typedNode(e)
 		}
-		return abs{"t": "arr", "g": "gen.Array", "v": a}
+		return abs{"t": "arr", "g": "gen.Array", "v": a, "nil": t == nil}
 	case map[string]any:
 		keys := make([]string, 0, len(t))
 		for k := range t {
@@ -66,7 +66,7 @@ func typed(v any) any {
 		for i, k := range keys {
 			ks[i], vs[i] = k, typed(t[k])
 		}
-		return abs{"t": "obj", "g": "map[string]any", "k": ks, "v": vs}
+		return abs{"t": "obj", "g": "map[string]any", "k": ks, "v": vs, "nil": t == nil}
 	case gen.Object:
 		keys := make([]string, 0, len(t))
 		for k := range t {
@@ -77,7 +77,7 @@ func typed(v any) any {
 		for i, k := range keys {
 			ks[i], vs[i] = k, typedNode(t[k])
 		}
-		return abs{"t": "obj", "g": "gen.Object", "k": ks, "v": vs}
+		return abs{"t": "obj", "g": "gen.Object", "k": ks, "v": vs, "nil": t == nil}
 	case nil:
 		return abs{"t": "null", "g": "nil"}
 	default:
@@ -465,8 +465,26 @@ func writeOne(c convCase) abs {
 			{"oj.JSON", func(d any) string { return oj.JSON(d, &ojg.Options{Sort: true}) }},
 			{"sen.String", func(d any) string { return sen.String(d, &ojg.Options{Sort: true}) }},
 			{"pretty.JSON", func(d any) string { return pretty.JSON(d, &ojg.Options{Sort: true}) }},
+			{"oj.Marshal", func(d any) string {
+				b, err := oj.Marshal(d, &ojg.Options{Sort: true})
+				if err != nil {
+					return "ERROR: " + err.Error()
+				}
+				return string(b)
+			}},
 		} {
 			outs = append(outs, abs{"w": w.name, "s": safeCall(w.f, s), "x": safeCall(w.f, x)})
+			if w.name == "oj.Marshal" {
+				// the strict writer also on the round trip through the other form
+				rt := safeCall(func(d any) string {
+					g := alt.Generify(d, keepOpt)
+					if g == nil {
+						return w.f(nil)
+					}
+					return w.f(g.Simplify())
+				}, s)
+				outs = append(outs, abs{"w": "oj.Marshal(Simplify(Generify))", "s": safeCall(w.f, s), "x": rt})
+			}
 		}
 		nodes = append(nodes, abs{"g": fmt.Sprintf("%T", s), "outs": outs})
 	}
